@@ -90,6 +90,9 @@ impl Geometric {
                     k += 1;
                     pi = pi * pi;
                 }
+                // pi = (1 - p)^(2^k) from p itself: 1 - p is rounded, and repeated
+                // squaring multiplies that rounding error by 2^k
+                let pi = ((1u64 << k) as f64 * (-p).ln_1p()).exp();
                 (pi, k)
             };
 
@@ -140,13 +143,11 @@ impl Distribution<u64> for Geometric {
         // NOTE: The paper suggests using bitwise sampling here, which is
         // currently unsupported, but should improve performance by requiring
         // fewer iterations on average.                 ~ October 28, 2020
+        let ln_q = (-p).ln_1p();
         let m = loop {
             let m = rng.random::<u64>() & ((1 << k) - 1);
-            let p_reject = if m <= i32::MAX as u64 {
-                (1.0 - p).powi(m as i32)
-            } else {
-                (1.0 - p).powf(m as f64)
-            };
+            // (1 - p)^m, again without rounding 1 - p first
+            let p_reject = (m as f64 * ln_q).exp();
 
             let u = rng.random::<f64>();
             if u < p_reject {
